@@ -255,6 +255,7 @@ func (b *BloomSearchEngine) Start() {
 		return
 	}
 	b.started = true
+	verifEv("start")
 
 	b.wg.Add(2)
 	go b.ingestWorker()
@@ -281,10 +282,12 @@ func (b *BloomSearchEngine) Stop(ctx context.Context) error {
 	// the read lock on a full ingest buffer — so Stop can always honor its
 	// deadline. The AfterFunc is dropped on a graceful finish, leaving
 	// flushCtx live.
+	verifEv("stop_call")
 	stopAfter := context.AfterFunc(ctx, b.flushCancel)
 
 	b.stateMu.Lock()
 	b.stopped = true
+	verifEv("stop_stopped")
 	b.stateMu.Unlock()
 
 	// Signal workers to stop
@@ -301,9 +304,11 @@ func (b *BloomSearchEngine) Stop(ctx context.Context) error {
 	case <-done:
 		// Workers finished gracefully
 		stopAfter()
+		verifEv("stop_ret")
 		return nil
 	case <-ctx.Done():
 		// Timeout occurred
+		verifEv("stop_ret", ctx.Err())
 		return fmt.Errorf("shutdown timeout exceeded: %w", ctx.Err())
 	}
 }
